@@ -22,8 +22,10 @@ For every file
               and builds the same bytes. Parses/builds that raise, exhaust the memory cap or exceed the CPU cap
               (several parse loops do not terminate on a zero entry size) are *refusals* and only counted.
 
-  histories   ordered pairs (A, B) of corpus files handled one after the other by ONE process (quick: the 21 objects
-              of one source, one per toolchain variant, 420 ordered pairs; thorough: all ordered pairs of the corpus),
+  histories   ordered pairs (A, B) of corpus files handled one after the other by ONE process (quick: 10 objects covering
+              32/64 bit x little/big endian x REL/DYN, 90 ordered pairs; thorough: all ordered pairs of the objects of
+              two sources, 22 files), plus chains handling the whole corpus in one process in several orders
+              (by name, reversed, 64-bit first, 32-bit first, ...), every file compared with its fresh result,
               so that every combination 32-then-64 and 64-then-32 bit of either byte order, REL/EXEC/DYN, occurs in
               both orders: the result for B (outcome, built bytes, all tables) must be the result B gives when it is
               the only file its process ever handles.
@@ -74,7 +76,10 @@ ASSUMPTIONS = [
 
 CPU_CAP_SMALL = 0.3     # seconds of process CPU time for one parse/build of a file < 100 kB
 CPU_CAP_BIG = 8.0
-HISTORY_SOURCE_QUICK = "data"
+# quick: one relocatable and one linked object of each ELF class / byte order the toolchain gives, 90 ordered pairs
+HISTORY_SOURCES_THOROUGH = ("data", "many")    # thorough: all ordered pairs of the objects of these sources
+HISTORY_POOL_QUICK = ("data.i386.o", "data.m32.so", "data.armv7.o", "data.gcc.o", "data.gcc.so", "data.aarch64.o",
+                      "data.mips.o", "data.powerpc.o", "data.mips64.o", "data.s390x.o")
 NONTERM_MULT = 4        # a CPU-cap trip inside an edit is re-run with this many times the cap before it is reported
 MEM_CAP = 3 << 29       # address-space cap of a worker while deviated files are handled
 
@@ -363,10 +368,41 @@ def check_history(names, fresh_digest):
                       % (last["name"], ", ".join(names[:-1]), what), case)], "violation"
 
 
+def check_chain(names, fresh):
+    """A long history: every file of @names in this order in this process; each result is compared with the file's
+    fresh-state result (@fresh: name -> digest). The first file that differs is reported."""
+    case = {"k": "chain", "files": list(names)}
+    first_cls = bits_end(elfcorpus.get(names[0])["data"])
+    n_cmp = 0
+    for idx, n in enumerate(names):
+        ent = elfcorpus.get(n)
+        try:
+            outcome, digest, detail = parse_result(ent)
+        except Exception as ex:
+            outcome, digest, detail = "raise-" + type(ex).__name__, None, None
+        if idx == 0 or n not in fresh:
+            continue
+        n_cmp += 1
+        if digest != fresh[n]:
+            kind = outcome if outcome != "ok" else ("bytes-differ" if not detail[0] else "tables-differ")
+            seen = sorted(set(bits_end(elfcorpus.get(x)["data"]) for x in names[:idx]))
+            case["files"] = list(names[:idx + 1])
+            return [violation("history-chain:%s-first:%s:%s" % (first_cls, bits_end(ent["data"]), kind),
+                              "%s, handled as file %d of one process after files of classes %s (first %s): %s; alone in a fresh "
+                              "process it gives another result" % (n, idx + 1, "/".join(seen), names[0],
+                                                                   "ends with " + outcome if outcome != "ok" else kind), case)], "violation", n_cmp
+    return [], "same-as-fresh", n_cmp
+
+
 def history_shard(names, fresh_digest):
     res = {"n": 1, "nt": 1, "vs": [], "outcomes": {}, "sample": None, "stats": None, "per_sig": {}, "digest": None}
-    vs, outcome = check_history(names, fresh_digest)
-    _bump(res["outcomes"], "history:" + outcome)
+    if isinstance(fresh_digest, dict):
+        vs, outcome, n_cmp = check_chain(names, fresh_digest)
+        _bump(res["outcomes"], "history-chain:" + outcome)
+        _bump(res["outcomes"], "history-chain:files-compared", n_cmp)
+    else:
+        vs, outcome = check_history(names, fresh_digest)
+        _bump(res["outcomes"], "history:" + outcome)
     for v in vs:
         res["per_sig"][v["sig"]] = 1
         res["vs"].append(v)
@@ -395,7 +431,7 @@ def check_edit(ent, i, pos, xor, path, orig_view=None):
     data = ent["data"]
     cls = file_class(data)
     case = {"k": "edit", "file": ent["name"], "sha256": ent["sha256"], "section": i, "pos": pos, "xor": xor, "path": path}
-    e, err = _guarded(lambda: ELF(data), cap_for(data))
+    e, err = _guarded_sure(lambda: ELF(data), cap_for(data))
     if err:
         return [], "base-parse-refused:%s" % err      # reported by the identity stage
     s = e.sh[i]
@@ -644,6 +680,25 @@ def _shard_inner(args):
     kind, name, payload = args
     if kind == "history":
         return history_shard(name, payload)
+    if kind == "file":
+        # every stage of one (small) file in one process: identity first (its digest is the fresh-state result)
+        secs, paths, xors, nsites = payload
+        parts = [_shard_inner(("identity", name, None))]
+        if secs:
+            parts.append(_shard_inner(("edit", name, (secs, paths, xors))))
+        if nsites:
+            parts.append(_shard_inner(("deviation", name, (0, nsites))))
+        res = parts[0]
+        for r in parts[1:]:
+            res["n"] += r["n"]
+            res["nt"] += r["nt"]
+            res["vs"] += r["vs"]
+            for k, v in r["outcomes"].items():
+                _bump(res["outcomes"], k, v)
+            for k, v in r["per_sig"].items():
+                _bump(res["per_sig"], k, v)
+            res["sample"] = res["sample"] or r["sample"]
+        return res
     ent = elfcorpus.get(name) if not isinstance(name, dict) else name
     res = {"n": 0, "nt": 0, "vs": [], "outcomes": {}, "sample": None, "stats": None, "per_sig": {}, "digest": None}
 
@@ -669,7 +724,7 @@ def _shard_inner(args):
         from miasm.loader.elf_init import ELF
         _quiet()
         sections, paths, xors = payload
-        ov, err = _guarded(lambda: view(ELF(ent["data"])), cap_for(ent["data"]))
+        ov, err = _guarded_sure(lambda: view(ELF(ent["data"])), cap_for(ent["data"]))
         if err:
             _bump(res["outcomes"], "edit:base-parse-refused:" + err)
             return res
@@ -713,8 +768,11 @@ def _shard_inner(args):
 
 def _preimport():
     """Import (only import) the loader in the parent so that the per-shard children do not pay for it."""
+    import gc
     import miasm.loader.elf_init  # noqa: F401
     _quiet()
+    gc.collect()
+    gc.freeze()      # children do not copy the parent's heap just because their collector walks it
 
 
 def run(ctx):
@@ -725,32 +783,43 @@ def run(ctx):
     shards = []
     n_edit_sections = 0
     for ent in entries:
-        shards.append(("identity", ent["name"], None))
         secs, _ = editable_sections(ent["data"])
         n_edit_sections += len(secs)
         big = len(ent["data"]) > 100000
-        step = 2 if big else 8
-        for a in range(0, len(secs), step):
-            shards.append(("edit", ent["name"], (secs[a:a + step], paths, xors)))
-        if not ctx.quick:
-            _, sites = deviation_sites(ent["data"])
-            step = 12 if big else 80
-            for a in range(0, len(sites), step):
-                shards.append(("deviation", ent["name"], (a, a + step)))
+        nsites = 0 if ctx.quick else len(deviation_sites(ent["data"])[1])
+        if not big:
+            # forking is expensive here (0.1-0.3 s): one process per small file does all its stages
+            shards.append(("file", ent["name"], (secs, paths, xors, nsites)))
+            continue
+        shards.append(("identity", ent["name"], None))
+        for a in range(0, len(secs), 4):
+            shards.append(("edit", ent["name"], (secs[a:a + 4], paths, xors)))
+        for a in range(0, nsites, 24):
+            shards.append(("deviation", ent["name"], (a, a + 24)))
     res = ctx.pmap(_shard, shards)
-    # histories: ordered pairs of files handled by ONE process (quick: the 21 objects of one source, one per
-    # toolchain variant; thorough: the whole corpus), compared with the result of the second file alone
+    # histories: ordered pairs of files handled by ONE process (quick: HISTORY_POOL_QUICK; thorough: the whole corpus), compared with the result of the second file alone
     fresh = {}
     for sh, r in zip(shards, res):
-        if sh[0] == "identity" and r.get("digest"):
+        if sh[0] in ("identity", "file") and r.get("digest"):
             fresh[sh[1]] = r["digest"]
-    pool = [e["name"] for e in entries if e["name"].startswith(HISTORY_SOURCE_QUICK + ".")] if ctx.quick else [e["name"] for e in entries]
+    pool = list(HISTORY_POOL_QUICK) if ctx.quick else [e["name"] for e in entries if e["name"].split(".")[0] in HISTORY_SOURCES_THOROUGH]
     pool = [n for n in pool if n in fresh]
     hshards = [("history", (a, b), fresh[b]) for a in pool for b in pool if a != b]
+    # chains: the whole corpus (quick: the files below 100 kB) in one process, in several orders
+    be0 = {e["name"]: bits_end(e["data"]) for e in entries}
+    allf = [e["name"] for e in entries if e["name"] in fresh and (not ctx.quick or len(e["data"]) < 100000)]
+    orders = [allf, allf[::-1],
+              sorted(allf, key=lambda n: (be0[n][3:5] != "64", n)), sorted(allf, key=lambda n: (be0[n][3:5] != "32", n))]
+    if not ctx.quick:
+        orders += [sorted(allf, key=lambda n: (be0[n], n)), sorted(allf, key=lambda n: (be0[n], n))[::-1],
+                   sorted(allf, key=lambda n: (n.split(".", 1)[1], n)), sorted(allf, key=lambda n: (n.split(".", 1)[1], n))[::-1]]
+    chains = [("history", tuple(o), {n: fresh[n] for n in o}) for o in orders]
+    hshards = chains + hshards
     be = {e["name"]: bits_end(e["data"]) for e in entries}
     hist_classes = {}
-    for _, (a, b), _d in hshards:
-        _bump(hist_classes, "%s-then-%s" % (be[a], be[b]))
+    for _, pair, _d in hshards:
+        if len(pair) == 2:
+            _bump(hist_classes, "%s-then-%s" % (be[pair[0]], be[pair[1]]))
     res = res + ctx.pmap(_shard, hshards)
     n = sum(r["n"] for r in res)
     nt = sum(r["nt"] for r in res)
@@ -801,6 +870,8 @@ def run(ctx):
         "outcomes": outcomes,
         "refused": sum(v for k, v in outcomes.items() if "refused" in k),
         "histories": len(hshards),
+        "history_chains": len(chains),
+        "history_chain_length": len(allf),
         "history_file_pool": len(pool),
         "histories_by_class_order": hist_classes,
         "histories_32_then_64_same_byte_order": sum(v for k, v in hist_classes.items() if k in ("elf32le-then-elf64le", "elf32be-then-elf64be")),
@@ -824,6 +895,14 @@ def replay(case):
         fresh = r.get("digest") if status == "ok" else None
         status, r = _in_child(_capped, ("history", tuple(names), fresh))
         return r["vs"] if status == "ok" else _shard(("history", tuple(names), fresh))["vs"]
+    if k == "chain":
+        names = case["files"]
+        fresh = {}
+        for n in sorted(set(names)):
+            status, r = _in_child(_capped, ("identity", n, None))
+            if status == "ok" and r.get("digest"):
+                fresh[n] = r["digest"]
+        return _shard(("history", tuple(names), fresh))["vs"]
     if k == "shard":
         return _shard(list(case["args"]))["vs"]
     ent = elfcorpus.get(case["file"])
